@@ -97,6 +97,17 @@ fn gen_tamper(rng: &mut Rng, sizes: [usize; 3], bytes: [&[u8]; 3]) -> Tamper {
     let file = *rng.pick(&[Which::Source, Which::Generated, Which::Generated, Which::Generated, Which::Lockfile]);
     let i = file as usize;
     let len = sizes[i];
+    // first character of a top-level key of the generated file (pretty JSON, two-space indent), replaced by a
+    // character that some parsers treat specially
+    if file == Which::Generated && rng.chance(1, 5) {
+        let b = bytes[1];
+        let starts: Vec<usize> = (0..b.len().saturating_sub(4)).filter(|&i| &b[i..i + 4] == b"\n  \"" && b[i + 4] != b' ').map(|i| i + 4).collect();
+        if !starts.is_empty() {
+            let offset = starts[rng.below(starts.len())];
+            let value = *rng.pick(b"$_#@-/~.!");
+            return Tamper { file, kind: TamperKind::Subst { offset, value, alt: b'%' }, keep_mtime: rng.chance(1, 3) };
+        }
+    }
     let kind = match rng.below(10) {
         0..=5 => {
             let offset = pick_offsets(rng, len);
@@ -359,6 +370,32 @@ fn exec_c17(sc: &C17Scenario) -> Outcome {
             break;
         }
         out.trace.push(format!("tamper {:?} must_reject={} ok", t, must_reject));
+    }
+    // ---- regeneration over files that are not pristine: generate must leave a consistent triple again
+    if out.violations.is_empty() && sc.only.is_empty() {
+        let mut rng2 = Rng::new(sc.tamper_seed ^ 0x5eed);
+        let junk: &[u8] = *rng2.pick(&[&b"\n"[..], &b"\n\n      \n"[..], &b"  // stale tail from an older, longer lockfile .......................\n"[..]]);
+        let mut lock = orig[2].clone();
+        if rng2.chance(1, 2) {
+            // a formatter has pretty-printed the lockfile
+            if let Ok(v) = serde_json::from_slice::<Value>(&orig[2]) {
+                lock = serde_json::to_vec_pretty(&v).unwrap_or(lock);
+            }
+        }
+        lock.extend_from_slice(junk);
+        let _ = std::fs::write(&paths[2], &lock);
+        if rng2.chance(1, 2) {
+            let mut src2 = orig[0].clone();
+            src2.extend_from_slice(b"// edited\n");
+            let _ = std::fs::write(&paths[0], &src2);
+        }
+        out.fault("regenerate_over_a_longer_or_reformatted_lockfile", 1);
+        let g2 = w.cli_stdin(&["config", "generate"], input.to_string().as_bytes());
+        if g2.code != Some(0) {
+            out.violate("accept_untouched", "regenerate_failed", format!("config generate over an existing (edited) lockfile failed: {}", g2.err_str().trim()));
+        } else if !positive(&mut w, &mut out, "after regenerating over an edited lockfile") {
+            out.trace.push("regeneration phase failed".into());
+        }
     }
     out.nontrivial = tampers.iter().any(|t| t.kind != TamperKind::RewriteSame);
     out.signature = format!("{}|{}|{}|{:?}", sc.n_targets, sc.name_pad, gen_len, tampers);
